@@ -1,4 +1,5 @@
 import Pyunicorn.Lemmas.Nsi
+import Pyunicorn.Lemmas.NsiDist
 import Pyunicorn.Model.NsiMeasures
 /-!
 # C02 — Node-splitting invariance of all n.s.i. measures
@@ -106,6 +107,37 @@ theorem pair_split_untouched (G : Gr) (v : Nat) (p : Rat) (hv : v < G.n) (e : E)
 theorem total_weight_split (G : Gr) (v : Nat) (p : Rat) (hv : v < G.n) :
     eval (split G v p) [] (.wsum (.const 1)) = eval G [] (.wsum (.const 1)) :=
   global_split G v p hv _
+
+/-- **the distances `split` installs are the true ones.**  For a loop-free graph whose `dist`
+field is its shortest-path length (walks along links inside the node range), the distance
+function of the split graph — twins at distance 1, every other pair pulled back along the
+collapse map — *is* the shortest-path length of the split graph: every walk of the split graph
+collapses to a walk that is not longer (`walk_collapse`) and every walk of the original graph
+lifts (`walk_lift`).  So the distance-based measures (average path length, closeness family,
+efficiency, cross closeness / path length) are invariant with respect to genuine shortest-path
+lengths, not merely with respect to an assumed pull-back. -/
+theorem split_distances_are_shortest_paths (G : Gr) (v : Nat) (p : Rat) (hv : v < G.n)
+    (hloop : ∀ i, G.adj i i = false)
+    (hd : ∀ a b, a < G.n → b < G.n → IsDist G a b (G.dist a b)) :
+    ∀ a b, a < G.n + 1 → b < G.n + 1 →
+      IsDist (split G v p) a b ((split G v p).dist a b) :=
+  split_dist_isDist G v p hv hloop hd
+
+/-- non-vacuity: on the path 0–1–2, node 2 is at distance 2 from node 0 -/
+def pathG : Gr :=
+  { n := 3, adj := fun i j => (i, j) ∈ [(0, 1), (1, 0), (1, 2), (2, 1)],
+    w := fun _ => 1, la := fun _ _ _ => 0, grp := fun _ _ => false, dist := fun _ _ => none }
+
+example : IsDist pathG 0 2 (some 2) := by
+  refine ⟨Walk.cons 0 1 2 1 (by decide) (by decide) (Walk.cons 1 2 2 0 (by decide) (by decide)
+    (Walk.nil 2 (by decide))), ?_⟩
+  intro k w
+  match k, w with
+  | 0, w => exact absurd w.zero_eq (by decide)
+  | 1, .cons _ b _ _ _ hab w' =>
+    have := w'.zero_eq; subst this
+    simp [pathG] at hab
+  | k + 2, _ => omega
 
 /-! ### the measures of the library are expressions: invariance of each, by name -/
 
